@@ -186,7 +186,7 @@ def main(run):
                 # saw the failed call (same storage content, same generator state): hidden estimate state untouched as well
                 if t > 0 and what == "incr":
                     twin2 = copy.deepcopy(sc)
-                    same_storage = [id(type(r)) for r in ()] == [] and \
+                    same_storage = twin2.storage is not None and \
                         [dict(r) for r in twin2.storage.get_data()[0]] == [dict(r) for r in b.storage.get_data()[0]]
                     for r in range(3):
                         x2, y2 = b.next_obs()
